@@ -160,8 +160,8 @@ def handle : Sexp → Option Sexp
               let wraw := match firstD with
                 | none => none
                 | some (S0, d) => derivWeightU (expTagsU tags) (expStartU st) S0 d
-              Sexp.list [encOptF (logProbabilityU g.rules g.starts tags st t),
-                         encOptF (logProbabilityUOld g.rules g.starts tags t),
+              Sexp.list [encOptF (logProbabilityU g.rules g.starts tags t),
+                         encOptF (some (probabilityU g.rules g.starts pr.1 t)),
                          encOptNats (encodeU L g.rules g.starts t),
                          .list [.atom "nder", ofNat ((alts.map (fun a => a.2.length)).foldl (· + ·) 0)],
                          .list (steps.map (fun sp => .list [ofNat sp.1, encDP sp.2])),
